@@ -200,7 +200,10 @@ func (node *CallGraphPipeline) resolvePipelineOuts(
 	childMap map[string]*ResolvedBinding,
 	lookup *TypeLookup) ErrorList {
 	var errs ErrorList
-	if len(node.pipeline.Ret.Bindings.List) > 0 {
+	// A pipeline with no output parameters can still have a (wildcard)
+	// return binding, but it has no output type.
+	if len(node.pipeline.Ret.Bindings.List) > 0 &&
+		node.pipeline.OutParams != nil && len(node.pipeline.OutParams.List) > 0 {
 		exp, err := node.makeOutExp(childMap, lookup)
 		if err != nil {
 			errs = append(errs, err)
